@@ -533,3 +533,155 @@ func keys(m map[string]bool) []string {
 	sortStrings(out)
 	return out
 }
+
+// TestC11Pipelined: a client need not wait for the CONNACK before it sends its next packets (MQTT 3.1.4): CONNECT and
+// what follows arrive in one write. Nothing of what follows may be lost, whatever its size, and the session stays served.
+func TestC11Pipelined(t *testing.T) {
+	type pp struct {
+		Follow []string `json:"packets_behind_connect"`
+		Split  int      `json:"bytes_in_the_first_write"` // 0: everything in one write; otherwise the first write ends there
+	}
+	var paths []pp
+	follows := [][]string{{"ping"}, {"sub"}, {"sub", "ping"}, {"pub-8k", "ping"}, {"sub", "pub-5k", "ping"}, {"pub-8k", "sub", "pub-5k", "ping"}, {"pub-100", "pub-8k", "pub-100", "ping"}}
+	for _, f := range follows {
+		paths = append(paths, pp{f, 0})
+		paths = append(paths, pp{f, 30})   // the first write ends inside what follows the CONNECT
+		paths = append(paths, pp{f, 4200}) // ... or beyond 4 KiB
+	}
+	RunPaths(t, "C11", "C11/pipelined-connect", "TestC11Pipelined", len(paths), vk.Pick(4*time.Minute, 10*time.Minute),
+		func(t *testing.T, i int, rep *vk.Report) {
+			p := paths[i]
+			RunBubble(t, fmt.Sprintf("p%d", i), func(t *testing.T) {
+				w := NewWorld(t, 1)
+				defer w.Close()
+				viol := func(sig, format string, a ...any) {
+					rep.Violate(vk.Violation{Sig: sig, Msg: fmt.Sprintf("%+v: ", p) + fmt.Sprintf(format, a...), Replay: p})
+				}
+				watch := w.NewClient("watch", 1, AckAll)
+				watch.Connect(ConnectOpts{ClientID: "watch", KeepAlive: 600})
+				watch.Subscribe(1, 0, "pipe/#")
+				w.Step()
+				c := w.NewClient("c", 1, AckAll)
+				stream := EncodeConnect(&packet.Connect{Header: &packet.Header{}, ClientId: []byte("pipelined"), KeepaliveTimer: 600, Clean: true})
+				wantPings, wantSubs := 0, 0
+				var wantPubs []int
+				for k, f := range p.Follow {
+					switch f {
+					case "ping":
+						stream = append(stream, 0xc0, 0)
+						wantPings++
+					case "sub":
+						body := append([]byte{0, byte(10 + k)}, lp("own/#")...)
+						body = append(body, 0)
+						stream = append(stream, tmpl{"", 0x82, body, nil, -1}.bytes()...)
+						wantSubs++
+					default:
+						n := map[string]int{"pub-100": 100, "pub-5k": 5000, "pub-8k": 8192}[f]
+						payload := make([]byte, n)
+						for j := range payload {
+							payload[j] = byte('a' + (j+k)%26)
+						}
+						stream = append(stream, tmpl{"", 0x30, append(lp(fmt.Sprintf("pipe/%d", k)), payload...), nil, -1}.bytes()...)
+						wantPubs = append(wantPubs, n)
+					}
+				}
+				if p.Split > 0 && p.Split < len(stream) {
+					c.SendRaw(stream[:p.Split])
+					w.Step()
+					c.SendRaw(stream[p.Split:])
+				} else {
+					c.SendRaw(stream)
+				}
+				w.Step()
+				w.Idle(2 * time.Second)
+				Observe(w, rep)
+				if c.BrokerClosed() {
+					viol("c11-ended-without-cause:pipelined", "the broker closed the connection of a client that sent CONNECT and %v without waiting for the CONNACK (inbox %s)", p.Follow, trunc(c.InboxDigest(), 200))
+					return
+				}
+				if c.Count("CONNACK(0)") != 1 || c.Count("PINGRESP") != wantPings || c.Count("SUBACK") != wantSubs {
+					viol("c11-pipelined-packet-lost", "sent CONNECT + %v: received %s, expected CONNACK, %d SUBACK, %d PINGRESP", p.Follow, trunc(c.InboxDigest(), 200), wantSubs, wantPings)
+					return
+				}
+				var gotPubs []int
+				for _, pk := range watch.Publishes() {
+					gotPubs = append(gotPubs, len(pk.Payload))
+				}
+				if fmt.Sprint(gotPubs) != fmt.Sprint(wantPubs) && !(len(gotPubs) == 0 && len(wantPubs) == 0) {
+					viol("c11-pipelined-packet-lost", "sent CONNECT + %v: the watcher received publishes of sizes %v, expected %v", p.Follow, gotPubs, wantPubs)
+					return
+				}
+				c.Ping()
+				w.Step()
+				if c.Count("PINGRESP") != wantPings+1 {
+					viol("c11-ping-unanswered:pipelined", "the session is no longer served after the pipelined packets")
+					return
+				}
+				MarkNontrivial(fmt.Sprint(p))
+				rep.Nontrivial++
+				rep.Sample(p)
+			})
+		},
+		func(i int) any { return paths[i] },
+		func(rep *vk.Report) {
+			rep.Rule = "CONNECT followed at once (no wait for CONNACK) by 7 packet sequences over {PINGREQ, SUBSCRIBE, PUBLISH of 100 / 5000 / 8192 payload bytes}, in one write or cut after 30 / 4200 bytes: every packet is answered or delivered, the session stays served"
+			rep.Floor("paths", 15, rep.Nontrivial)
+		})
+}
+
+// TestC11PeersFailTogether: two other nodes, each hosting sessions with subscriptions, are declared failed a moment
+// apart. Every trace of the sessions of BOTH must be gone from the survivor once the clean-up delays have passed.
+func TestC11PeersFailTogether(t *testing.T) {
+	type fp struct {
+		GapMs int `json:"second_failure_after_ms"`
+	}
+	var paths []fp
+	for _, g := range []int{0, 100, 1000, 2900, 3100, 6000} {
+		paths = append(paths, fp{g})
+	}
+	RunPaths(t, "C11", "C11/peers-fail-together", "TestC11PeersFailTogether", len(paths), vk.Pick(4*time.Minute, 10*time.Minute),
+		func(t *testing.T, i int, rep *vk.Report) {
+			p := paths[i]
+			RunBubble(t, fmt.Sprintf("p%d", i), func(t *testing.T) {
+				w := NewWorld(t, 3)
+				defer w.Close()
+				for n := 2; n <= 3; n++ {
+					c := w.NewClient(fmt.Sprintf("c%d", n), n, AckAll)
+					c.Connect(ConnectOpts{ClientID: fmt.Sprintf("client-on-%d", n), KeepAlive: 600})
+					c.Subscribe(1, 0, fmt.Sprintf("from/%d", n))
+				}
+				stay := w.NewClient("stay", 1, AckAll)
+				stay.Connect(ConnectOpts{ClientID: "stay", KeepAlive: 600})
+				stay.Subscribe(1, 0, "stay/#")
+				w.Step()
+				if len(w.Node(1).DState.SessionMetadatas().All()) != 3 {
+					rep.HarnessError("node 1 does not list the three sessions before the failures")
+					return
+				}
+				w.Leave(2)
+				w.Idle(time.Duration(p.GapMs) * time.Millisecond)
+				w.Leave(3)
+				w.Idle(8 * time.Second)
+				Observe(w, rep)
+				v := w.Node(1).View()
+				if len(v.Sessions) != 1 || len(v.Subscriptions) != 1 {
+					rep.Violate(vk.Violation{Sig: "c11-session-record-left:peers-fail-together", Msg: fmt.Sprintf("%+v: nodes 2 and 3 failed %d ms apart; 8 s later the surviving node lists %s (only its own session and subscription should be left)", p, p.GapMs, v), Replay: p})
+					return
+				}
+				stay.Ping()
+				w.Step()
+				if stay.BrokerClosed() || stay.Count("PINGRESP") != 1 {
+					rep.Violate(vk.Violation{Sig: "c11-ended-without-cause:peers-fail-together", Msg: fmt.Sprintf("%+v: the survivor's own session is no longer served", p), Replay: p})
+					return
+				}
+				MarkNontrivial(fmt.Sprint(p))
+				rep.Nontrivial++
+				rep.Sample(p)
+			})
+		},
+		func(i int) any { return paths[i] },
+		func(rep *vk.Report) {
+			rep.Rule = "three nodes; nodes 2 and 3 (one session with a subscription each) are declared failed 0 / 0.1 / 1 / 2.9 / 3.1 / 6 s apart; 8 s after the second failure node 1 lists nothing of either"
+			rep.Floor("paths", 6, rep.Nontrivial)
+		})
+}
